@@ -1081,10 +1081,36 @@ type When struct {
 	desc       string
 	ref        string
 	extensions []*Extension
+	and        *When
 }
 
 func (y *When) Expression() string {
 	return y.expr
+}
+
+// And is a further condition that has to hold as well: a node with a when of its own that
+// arrives thru a uses or an augment with a when is under both. Nil when there is none.
+func (y *When) And() *When {
+	return y.and
+}
+
+// andAlso gives a copy of this condition, and the ones already chained to it, followed by other.
+func (y *When) andAlso(other *When) *When {
+	c := *y
+	if y.and != nil {
+		c.and = y.and.andAlso(other)
+	} else {
+		c.and = other
+	}
+	return &c
+}
+
+// whenBoth is the condition of a node that has a condition of its own, or not, and inherits one
+func whenBoth(own *When, inherited *When) *When {
+	if own == nil {
+		return inherited
+	}
+	return own.andAlso(inherited)
 }
 
 type Must struct {
